@@ -63,6 +63,7 @@ pub struct Stats {
     pub samples: Vec<String>,
     pub families: BTreeMap<String, u64>,
     pub counters: BTreeMap<String, u64>,
+    pub notes: BTreeMap<String, Vec<String>>,
     pub saturated: bool,
 }
 
@@ -123,13 +124,27 @@ impl Case<'_> {
     #[inline]
     pub fn count(&mut self, key: &str, n: u64) {
         if self.record {
-            *self.st.counters.entry(key.to_string()).or_insert(0) += n;
+            match self.st.counters.get_mut(key) {
+                Some(v) => *v += n,
+                None => {
+                    self.st.counters.insert(key.to_string(), n);
+                }
+            }
         }
     }
     /// record a violated obligation but keep checking the rest of this case
     pub fn soft_violation(&mut self, msg: String) {
         if self.soft.len() < 4 {
             self.soft.push(msg);
+        }
+    }
+    /// keep up to 4 example texts per key in the evidence
+    pub fn note(&mut self, key: &str, text: String) {
+        if self.record {
+            let v = self.st.notes.entry(key.to_string()).or_default();
+            if v.len() < 4 {
+                v.push(text);
+            }
         }
     }
     pub fn log(&self, s: &str) {
@@ -405,6 +420,11 @@ pub fn worker_finish(ctx: &Ctx, out: &Path) {
     for s in &st.samples {
         writeln!(f, "sample {}", serde_json::to_string(s).unwrap()).unwrap();
     }
+    for (k, v) in &st.notes {
+        for t in v {
+            writeln!(f, "note {}", serde_json::to_string(&json!([k, t])).unwrap()).unwrap();
+        }
+    }
     for v in &ctx.violations {
         writeln!(
             f,
@@ -456,6 +476,14 @@ fn merge_file(m: &mut Merged, p: &Path) -> bool {
                     }
                 }
             }
+            "note" => {
+                if let Ok(v) = serde_json::from_str::<Value>(rest) {
+                    let e = m.st.notes.entry(v[0].as_str().unwrap_or("").to_string()).or_default();
+                    if e.len() < 6 {
+                        e.push(v[1].as_str().unwrap_or("").to_string());
+                    }
+                }
+            }
             "violation" => {
                 if let Ok(v) = serde_json::from_str::<Value>(rest) {
                     m.violations.push(Violation {
@@ -497,6 +525,17 @@ pub struct CheckInfo {
     pub assumptions: &'static [&'static str],
     pub bound_quick: &'static str,
     pub bound_thorough: &'static str,
+}
+
+/// counters that must be non-zero after a run, else the exploration is vacuous (machinery error)
+pub fn required_counters(prop: &str) -> &'static [&'static str] {
+    match prop {
+        "C04" => &[
+            "resume_Head", "resume_Flags", "resume_Time", "resume_Os", "resume_ExLen", "resume_Extra", "resume_Name", "resume_Comment", "resume_HCrc", "resume_Length", "resume_Type", "resume_Stored", "resume_CopyBlock", "resume_Check", "resume_Len",
+            "resume_LenExt", "resume_Dist", "resume_DistExt", "resume_Match", "resume_Table", "resume_LenLens", "resume_CodeLens", "resume_DictId", "resume_Dict", "resume_Done", "resume_Bad",
+        ],
+        _ => &[],
+    }
 }
 
 struct Slots {
@@ -743,6 +782,7 @@ pub fn run_parent(info: &CheckInfo, tier: Tier, extra_cov: Option<Value>) -> i32
         "samples": st.samples,
         "families": fams,
         "counters": ctrs,
+        "notes": st.notes,
         "cases_enumerated": m.total,
         "cases_executed": st.cases,
         "exhaustive": exhaustive,
@@ -790,6 +830,14 @@ pub fn run_parent(info: &CheckInfo, tier: Tier, extra_cov: Option<Value>) -> i32
     if st.cases == 0 {
         eprintln!("MACHINERY FAILURE ({prop}): vacuous run, no case executed");
         return 2;
+    }
+    if new_violations.is_empty() {
+        for k in required_counters(prop) {
+            if st.counters.get(*k).copied().unwrap_or(0) == 0 {
+                eprintln!("MACHINERY FAILURE ({prop}): vacuous exploration, required coverage counter {k} is zero");
+                return 2;
+            }
+        }
     }
     if new_violations.is_empty() {
         0
